@@ -480,7 +480,7 @@ pub fn run_check(check: &'static dyn Check, opts: RunOpts) -> i32 {
     agg.failures.retain(|_, _| true);
     write_evidence(check, &opts, &agg, t0, json!({"reported": reported, "prepare": extra}), violations, &notes);
     let _ = std::fs::remove_dir_all(&run_dir);
-    let nt = agg.nontrivial_hashes.len() + agg.inner_hashes.len();
+    let nt = if agg.inner_hashes.is_empty() { agg.nontrivial_hashes.len() } else { agg.inner_hashes.len() };
     if std::env::var("VERIF_VERBOSE").is_ok() {
         for (l, c) in &agg.labels {
             println!("  label {l}: {c} ({:.1}%)", *c as f64 * 100.0 / agg.evaluations.max(1) as f64);
@@ -562,7 +562,7 @@ fn absorb(a: &mut Agg, idx: u64, v: &Value, tape: Vec<u8>) {
 
 fn write_evidence(check: &dyn Check, opts: &RunOpts, a: &Agg, t0: Instant, extra: Value, violations: i32, notes: &[String]) {
     let samples: Vec<Value> = a.samples.values().cloned().collect();
-    let distinct = a.nontrivial_hashes.len() + a.inner_hashes.len();
+    let distinct = if a.inner_hashes.is_empty() { a.nontrivial_hashes.len() } else { a.inner_hashes.len() };
     let ev = if a.inner > 0 { a.inner } else { a.evaluations };
     let mut assumptions = check.assumptions();
     assumptions.push("the explicit tree is read through one TreeCursor depth-first walk and the Node getters of the Rust binding".to_string());
